@@ -2,8 +2,9 @@
   Model of the HNSW index wrapper `src/hnsw_index.rs` (the `Index` trait of `src/index_manager.rs`).
   State = (vectors, tombstones, inner graph contents, dimension, config).  The approximate search of
   `hnsw_rs` is the parameter `ann`; everything the wrapper does around it is modelled as written,
-  including what it does wrong (tombstones are only applied when the graph is rebuilt; `insert` does
-  not clear a tombstone; a failing `insert_batch` leaves the graph stale).
+  after the repair `fix: hnsw index never returns tombstoned ids …` (search filters tombstones and
+  over-fetches by their number; insert / insert_batch clear the tombstone; batches and rebuilds are
+  validated before anything is stored).
 -/
 import ILV.Model.FloatOps
 import ILV.Model.VecOps
@@ -93,37 +94,50 @@ def normTooSmall (v : List F.F32) : Bool :=
   let n := norm32 F v
   F.lt32 n (tiny32 F) || F.eq32 n (tiny32 F)
 
-/-- validation + dimension tracking + store of one entry (hnsw_index.rs:273-318 / 329-367), without
-    the graph rebuild. -/
-def storeOne (s : Index F) (id : Nat) (v : List F.F32) : Except Err (Index F) :=
+/-- `validate_vector` (hnsw_index.rs): empty / zero-norm (cosine, dot) / dimension checks against
+    the dimension `dim` (0 = not yet determined); returns the dimension to use from here on. -/
+def validate (m : Metric) (v : List F.F32) (dim : Nat) : Except Err Nat :=
   if v.isEmpty then .error .empty
-  else if needsNorm s.cfg.metric && normTooSmall v then .error .zeroNorm
-  else if s.dim != 0 && s.dim != v.length then .error .dim
-  else
-    let s1 := if s.dim == 0 then { s with dim := v.length } else s
-    .ok { s1 with vectors := upsert s1.vectors id (prepare F s.cfg.metric v) }
+  else if needsNorm m && normTooSmall v then .error .zeroNorm
+  else if dim != 0 && dim != v.length then .error .dim
+  else .ok v.length
 
-/-- hnsw_index.rs:272 `insert`. -/
+/-- validation of a whole list, threading the dimension (the loops of `insert_batch` / `rebuild`). -/
+def validateAll (m : Metric) : List (Nat × List F.F32) → Nat → Except Err Nat
+  | [], d => .ok d
+  | (_, v) :: rest, d => match validate m v d with
+    | .error e => .error e
+    | .ok d' => validateAll m rest d'
+
+/-- `store_vector`: upsert the prepared vector and revive the identifier if it was tombstoned. -/
+def storeVec (s : Index F) (id : Nat) (v : List F.F32) : Index F :=
+  { s with vectors := upsert s.vectors id (prepare F s.cfg.metric v), tombs := s.tombs.filter (fun t => t != id) }
+
+/-- `insert`: validate, store, rebuild the graph. -/
 def insert (s : Index F) (id : Nat) (v : List F.F32) : Index F × Option Err :=
-  match storeOne s id v with
+  match validate s.cfg.metric v s.dim with
   | .error e => (s, some e)
-  | .ok s1 => (rebuildHnsw s1, none)
+  | .ok d => (rebuildHnsw (storeVec { s with dim := d } id v), none)
 
-/-- hnsw_index.rs:327 `insert_batch`: an error returns at once — the entries stored so far stay in
-    `vectors`, the graph is not rebuilt. -/
-def insertBatch (s : Index F) : List (Nat × List F.F32) → Index F × Option Err
-  | [] => (rebuildHnsw s, none)
-  | (id, v) :: rest => match storeOne s id v with
-    | .error e => (s, some e)
-    | .ok s1 => insertBatch s1 rest
+def storeAll (s : Index F) (es : List (Nat × List F.F32)) : Index F := es.foldl (fun s e => storeVec s e.1 e.2) s
 
-/-- hnsw_index.rs:402 `rebuild`. -/
-def rebuild (s : Index F) (vs : List (Nat × List F.F32)) : Index F :=
-  match vs with
-  | [] => { s with tombs := [], inner := none, dim := 0, vectors := [] }
-  | (_, v0) :: _ =>
-    rebuildHnsw { s with tombs := [], inner := none, dim := v0.length,
-                         vectors := vs.map (fun p => (p.1, prepare F s.cfg.metric p.2)) }
+/-- `insert_batch`: every entry is validated before any is stored; a rejected batch leaves the
+    index untouched; one graph rebuild at the end. -/
+def insertBatch (s : Index F) (es : List (Nat × List F.F32)) : Index F × Option Err :=
+  match validateAll s.cfg.metric es s.dim with
+  | .error e => (s, some e)
+  | .ok d => (rebuildHnsw (storeAll { s with dim := d } es), none)
+
+/-- `rebuild`: same validation as insert (before anything is replaced), then replace everything. -/
+def rebuild (s : Index F) (vs : List (Nat × List F.F32)) : Index F × Option Err :=
+  match validateAll s.cfg.metric vs 0 with
+  | .error e => (s, some e)
+  | .ok _ =>
+    match vs with
+    | [] => ({ s with tombs := [], inner := none, dim := 0, vectors := [] }, none)
+    | (_, v0) :: _ =>
+      (rebuildHnsw { s with tombs := [], inner := none, dim := v0.length,
+                            vectors := vs.map (fun p => (p.1, prepare F s.cfg.metric p.2)) }, none)
 
 /-- `tombstone_ratio() > 0.3` (hnsw_index.rs:377, 391): `t/v > 0.3` in f64 is `10·t > 3·v` for the
     sizes that occur (`fl(t/v)` is monotone and `fl(3/10)` is the constant `0.3`). -/
@@ -135,7 +149,7 @@ def tombstone (s : Index F) (id : Nat) : Index F :=
 
 /-- hnsw_index.rs:373 `delete`: tombstone, and compact when more than 30 % are tombstoned. -/
 def delete (s : Index F) (id : Nat) : Index F :=
-  if ratioAbove (tombstone s id) then rebuild (tombstone s id) (active (tombstone s id)) else tombstone s id
+  if ratioAbove (tombstone s id) then (rebuild (tombstone s id) (active (tombstone s id))).1 else tombstone s id
 
 /-! ### search -/
 
@@ -175,16 +189,20 @@ def searchRaw (s : Index F) (q : List F.F32) (k : Nat) (raw : List (Nat × F.F32
       if s.cfg.metric == .manhattan then
         raw.filterMap (fun r => match stored[r.1]? with
           | none => none
-          | some (id, _) => match s.vectors.find? (fun p => p.1 == id) with
+          | some (id, _) =>
+            if isTomb s id then none else
+            match s.vectors.find? (fun p => p.1 == id) with
             | some (_, sv) => some (id, manh64 pq sv)
             | none => none)
       else
-        raw.filterMap (fun r => (stored[r.1]?).map (fun e => (e.1, transform s.cfg.metric r.2)))
+        raw.filterMap (fun r => match stored[r.1]? with
+          | none => none
+          | some (id, _) => if isTomb s id then none else some (id, transform s.cfg.metric r.2))
     (sortBy F.lt64 (·.2) res).take k
 
 /-- the parameters handed to `hnsw.search`: (stored points, prepared query, knbn, ef). -/
-def searchK (s : Index F) (k : Nat) : Nat := if s.cfg.metric == .manhattan then k * 4 else k
-def searchEf (s : Index F) (ef : Option Nat) : Nat := ef.getD s.cfg.efs
+def searchK (s : Index F) (k : Nat) : Nat := (if s.cfg.metric == .manhattan then k * 4 else k) + s.tombs.length
+def searchEf (s : Index F) (ef : Option Nat) : Nat := ef.getD s.cfg.efs + s.tombs.length
 
 /-- hnsw_index.rs:207 `search` over the parameter `ann` (= `Hnsw::search`). -/
 def search (ann : List (List F.F32) → List F.F32 → Nat → Nat → List (Nat × F.F32))
@@ -261,7 +279,7 @@ def applyOp (s : Index F) : Op F → Index F
   | .insert id v => (insert s id v).1
   | .insertBatch es => (insertBatch s es).1
   | .delete id => delete s id
-  | .rebuild vs => rebuild s vs
+  | .rebuild vs => (rebuild s vs).1
   | .saveLoad => (load (save s)).getD s
 
 def runOps (s : Index F) (ops : List (Op F)) : Index F := ops.foldl applyOp s
